@@ -381,6 +381,18 @@ def run(ctx, spec):
             rng.shuffle(kids)
             ctx.count("mon.lopsided_trees")
             check_tree(ctx, tuple(kids), triples=False, pairs_cap=2500, rng=rng)
+        # deep trees: a spine of 500-700 single-child nodes with a few side branches and a small clade at the bottom
+        # (levels and distances across level ~500, well past typical recursion hand-offs)
+        for k in range(1 if ctx.tier == "quick" else 6):
+            import sys
+
+            sys.setrecursionlimit(30000)
+            depth = rng.choice([490, 520, 600, 700])
+            sh = ((None, None), None)
+            for d in range(depth):
+                sh = (sh,) if rng.random() < 0.97 else ((sh, None) if rng.random() < 0.5 else (None, sh))
+            ctx.count("mon.deep_trees")
+            check_tree(ctx, sh, triples=False, pairs_cap=3000, rng=rng)
         # big trees (hundreds to thousands of nodes): sparse-table levels 10+, Euler tours longer than 1024/2048 entries
         for k in range(2 if ctx.tier == "quick" else 8):
             n = rng.choice([300, 700, 1100, 1600, 2500])
